@@ -525,6 +525,8 @@ class Parser(IdlVisitor):
                         type_ref.type_def = self.resolver.resolve(type_ref)
                     except Resolver.TypeResolvingException as e:
                         self.errors.append(e)
+                    if type_ref.type_def is None:
+                        continue
                     if type_ref.parameters and not type_ref.type_def.params:
                         self.errors.append(Parser.ParsingException(
                             f"Type '{type_ref.name}' does not accept generic parameters",
@@ -569,7 +571,7 @@ class Parser(IdlVisitor):
                             ))
                         if method.throwing is not None:
                             for type_ref in method.throwing:
-                                if type_ref.type_def.primitive != BaseExternalType.Primitive.error:
+                                if type_ref.type_def and type_ref.type_def.primitive != BaseExternalType.Primitive.error:
                                     self.errors.append(Parser.ParsingException(
                                         "Only errors can be thrown",
                                         position=type_ref.position
@@ -594,7 +596,7 @@ class Parser(IdlVisitor):
                             ))
                     if decl.throwing is not None:
                         for type_ref in decl.throwing:
-                            if type_ref.type_def.primitive != BaseExternalType.Primitive.error:
+                            if type_ref.type_def and type_ref.type_def.primitive != BaseExternalType.Primitive.error:
                                 self.errors.append(Parser.ParsingException(
                                     "Only errors can be thrown",
                                     position=type_ref.position
